@@ -21,13 +21,18 @@ def table() -> str:
     for m in rows:
         out.append("| `%s` | %s | %s | %s | %s | %s |" % (
             m["id"], m["property"], m.get("needs_to_manifest", "").replace("|", "\\|"), ", ".join(m.get("detected_by", [])) or "-",
-            "no" if m.get("initially_missed") else "yes", (m.get("strengthening") or "").replace("|", "\\|")))
+            "no" if m.get("initially_missed") else "yes", ((m.get("strengthening") or "") + ((" " if m.get("strengthening") else "") + "[" + m["note"] + "]" if m.get("note") and not m.get("detected_by") else "")).replace("|", "\\|")))
     n = len(rows)
     missed = sum(1 for m in rows if m.get("initially_missed"))
     caught = sum(1 for m in rows if m.get("detected_by"))
-    head = (f"{n} seeded changes, each verified by me in a scratch worktree (patch applies to /repo's HEAD, the 678 tests still pass with it, "
-            f"the seed's own demonstration fails with it and passes without it). {caught} are caught by a quick-tier check on every run; "
-            f"{n - missed} were caught by the checks as they stood when the seed arrived, {missed} only after the strengthening named in the last column.\n")
+    based = sum(1 for m in rows if not m.get("verified", {}).get("patch_applies_to_repo_head", True))
+    undetected = [m["id"] for m in rows if not m.get("detected_by")]
+    head = (f"{n} seeded changes, each verified by me in a scratch worktree (the patch applies, the 678 tests still pass with it, "
+            f"the seed's own demonstration fails with it and passes without it). {based} of them were written against code that a later `fix:` commit replaced; "
+            f"they are kept as written and run on the commit before that fix (`seedtest --base`, recorded in their `meta.json`), or were rebased by hand where the change carries over. "
+            f"{caught} are caught by a quick-tier check on every run; {n - missed} were caught by the checks as they stood when the seed arrived, "
+            f"{missed - len(undetected)} only after the strengthening named in the last column"
+            + (f"; not detected: {', '.join(undetected)} (see its note: by its author's own assessment it does not break the statement)" if undetected else "") + ".\n")
     return head + "\n" + "\n".join(out) + "\n"
 
 
